@@ -321,6 +321,7 @@ static void run_config(int b, int r, int o, int depth, int ic)
 	snprintf(cfg_name, sizeof(cfg_name), "buf%d/start=(%d,%d)/%s", b, r, o, ic ? "ic" : "noic");
 	snprintf(setup, sizeof(setup), ":%d\n%d|", r + 1, rv_col(&VB, r, o) + 1);
 	nx_bound = depth;
+	snprintf(nx_cfg_args, sizeof(nx_cfg_args), "cfg=%d,%d,%d ic=%d", b, r, o, ic);
 	nvx_feed(setup, -1);
 	nx_run(3, argv);
 	nvx_pend_pos = nvx_pend_len = 0;
@@ -344,7 +345,7 @@ int main(int argc, char **argv)
 	if (nv_arg(argc, argv, "cfg", NULL)) {
 		sscanf(nv_arg(argc, argv, "cfg", "0,0,0"), "%d,%d,%d", &b, &r, &o);
 		nx_shard_div = 1;
-		run_config(b, r, o, nx_replay_n >= 0 ? 8 : d, 0);
+		run_config(b, r, o, nx_replay_n >= 0 ? 8 : d, atoi(nv_arg(argc, argv, "ic", "0")));
 		return nv_finish();
 	}
 	for (b = 0; b < NBUF; b++) {
